@@ -936,7 +936,7 @@ type polWallCase struct {
 func TestVerif_C10real(t *testing.T) {
 	k := verifkit.Start(t, "C10")
 	polWall = true
-	k.Regress(t, func(sub string, raw json.RawMessage) error { return nil })
+	k.Special = "real-clock"
 	gen := func(t *rapid.T) polWallCase {
 		var wc polWallCase
 		shape := rapid.IntRange(0, 4).Draw(t, "errshape")
@@ -996,6 +996,7 @@ func TestVerif_C10real(t *testing.T) {
 		}
 		return nil
 	}
+	k.Regress(t, func(sub string, raw json.RawMessage) error { return verifkit.Decode(raw, prop) })
 	verifkit.Rapid(k, t, "real-clock-policy-runs(old timer semantics)", k.N(1, 10), gen, prop)
 }
 
